@@ -31,7 +31,7 @@ Theorem C04_verdict_reported : forall (c : hcall) (e : N) (rest : list hitem) (s
 Proof. exact verdict_reported. Qed.
 
 (* THE WHOLE SYSTEM, EVERY SCHEDULE (Model/Sys.v): any number of channels, each with its caller and its program of synchronous and nowait calls; the I/O thread draining mailboxes (any prefix at a time), writing (any number of frames at a time) and routing replies; a server that answers the requests of one channel in order and the channels in ANY relative order, at any time. After every finite interleaving of these actions: the I/O thread never found a reply queue full; what channel n's calls have returned is exactly the server's answers to the first so-many synchronous requests channel n issued, in order (the i-th call got the reply to the i-th request - never another channel's, never another call's); a caller that is not blocked has the reply of every synchronous request it issued; a blocked caller is owed exactly one item, the answer to its last request; the reply queue holds at most one item; and what was issued is a prefix of the program *)
-Theorem C04_system_own_reply : forall (answer : N -> N -> N) (bound qcap : N) (progs : N -> list call), 1 <= qcap -> forall sched : list act, let s := yrun answer bound qcap (init_sys progs) sched in y_fail s = false /\ (forall n : N, let c := y_ch s n in yc_results c = map (answer n) (firstn (length (yc_results c)) (syncs (yc_issued c))) /\ (yc_wait c = false -> yc_results c = map (answer n) (syncs (yc_issued c))) /\ (yc_wait c = true -> exists r : N, syncs (yc_issued c) = firstn (length (yc_results c)) (syncs (yc_issued c)) ++ [r] /\ inflight answer s n = [answer n r]) /\ (length (yc_replyq c) <= 1)%nat /\ yc_issued c ++ yc_prog c = progs n).
+Theorem C04_system_own_reply : forall (answer : N -> N -> N) (bound qcap : N) (progs : N -> list call), 1 <= qcap -> forall sched : list act, let s := yrun answer bound qcap (init_sys progs) sched in y_fail s = false /\ (forall n : N, let c := y_ch s n in yc_results c = map (answer n) (firstn (length (yc_results c)) (syncs (yc_issued c))) /\ (yc_wait c = false -> yc_failed c = false -> yc_results c = map (answer n) (syncs (yc_issued c))) /\ (yc_wait c = true -> exists r : N, syncs (yc_issued c) = firstn (length (yc_results c)) (syncs (yc_issued c)) ++ [r] /\ inflight answer s n = [answer n r]) /\ (yc_failed c = false -> (length (yc_replyq c) <= 1)%nat) /\ yc_issued c ++ yc_prog c = progs n /\ (yc_failed c = true -> y_dead s = true)).
 Proof. exact sys_own_reply. Qed.
 
 (* ... in particular the capacity the code gives a reply queue (2, from the compiled crate) is never reached under a compliant server: the hypothesis has_room of C04_routing holds in every reachable state *)
@@ -90,7 +90,7 @@ Check C04_calls_in_order : forall (wants : list N) (s : hstate) (rest : list hit
 Check C04_call_takes_head : forall (c : hcall) (s : hstate) (r : hres) (s' : hstate), hstep c s = Some (r, s') -> h_replies s' = h_replies s \/ (exists it : hitem, h_replies s = it :: h_replies s').
 Check C04_call_returns_head : forall (want : N) (rest : list hitem) (s : hstate), h_mail_rx s = true -> h_replies s = HMethod want :: rest -> hstep (CCall want) s = Some (ROk want, with_replies s rest (h_mail s + 1)).
 Check C04_verdict_reported : forall (c : hcall) (e : N) (rest : list hitem) (s : hstate), c <> CNowait \/ h_mail_rx s = false -> h_replies s = HErr e :: rest -> exists s' : hstate, hstep c s = Some (RErrItem e, s') /\ h_replies s' = rest.
-Check C04_system_own_reply : forall (answer : N -> N -> N) (bound qcap : N) (progs : N -> list call), 1 <= qcap -> forall sched : list act, let s := yrun answer bound qcap (init_sys progs) sched in y_fail s = false /\ (forall n : N, let c := y_ch s n in yc_results c = map (answer n) (firstn (length (yc_results c)) (syncs (yc_issued c))) /\ (yc_wait c = false -> yc_results c = map (answer n) (syncs (yc_issued c))) /\ (yc_wait c = true -> exists r : N, syncs (yc_issued c) = firstn (length (yc_results c)) (syncs (yc_issued c)) ++ [r] /\ inflight answer s n = [answer n r]) /\ (length (yc_replyq c) <= 1)%nat /\ yc_issued c ++ yc_prog c = progs n).
+Check C04_system_own_reply : forall (answer : N -> N -> N) (bound qcap : N) (progs : N -> list call), 1 <= qcap -> forall sched : list act, let s := yrun answer bound qcap (init_sys progs) sched in y_fail s = false /\ (forall n : N, let c := y_ch s n in yc_results c = map (answer n) (firstn (length (yc_results c)) (syncs (yc_issued c))) /\ (yc_wait c = false -> yc_failed c = false -> yc_results c = map (answer n) (syncs (yc_issued c))) /\ (yc_wait c = true -> exists r : N, syncs (yc_issued c) = firstn (length (yc_results c)) (syncs (yc_issued c)) ++ [r] /\ inflight answer s n = [answer n r]) /\ (yc_failed c = false -> (length (yc_replyq c) <= 1)%nat) /\ yc_issued c ++ yc_prog c = progs n /\ (yc_failed c = true -> y_dead s = true)).
 Check C04_system_reply_queue_never_full : forall (answer : N -> N -> N) (bound qcap : N) (progs : N -> list call), 1 <= qcap -> forall sched : list act, y_fail (yrun answer bound qcap (init_sys progs) sched) = false.
 Check C04_system_waiting_progress : forall (answer : N -> N -> N) (bound qcap : N) (progs : N -> list call), 1 <= qcap -> forall (sched : list act) (n : N), let s := yrun answer bound qcap (init_sys progs) sched in yc_wait (y_ch s n) = true -> yc_replyq (y_ch s n) <> [] \/ y_inwire s <> [] \/ yc_pend (y_ch s n) <> [] \/ y_outwire s <> [] \/ y_outbuf s <> [] \/ yc_mail (y_ch s n) <> [].
 Check C04_io_read_is_ARead : forall (n : N) (m : smethod) (dbg : str) (c : core), steady c -> n <> 0 -> is_reply m -> reply_queue_ok c n -> reply_queues_distinct c -> (length (view_replyq c n) <= 1)%nat -> exists c' : core, process c (FMethod n m, dbg) = (OOk, c') /\ view_replyq c' n = view_replyq c n ++ [reply_item m] /\ (forall k : N, k <> n -> view_replyq c' k = view_replyq c k) /\ (forall k : N, view_mail c' k = view_mail c k) /\ c_out c' = c_out c /\ c_phase c' = c_phase c.
